@@ -446,7 +446,8 @@ def to_docstring(
             doc, default = extract_default(
                 _param["doc"], emit_default_doc=emit_default_doc
             )
-            if default is not None:
+            if default is not None and "default" not in _param:
+                # an explicit default keeps its value and type; the prose is only a fallback
                 _param["default"] = default
 
         _sep = abs(indent_level) * tab
